@@ -354,7 +354,7 @@ fn short_res(r: &Res) -> String {
 
 pub fn run(args: &Args) -> i32 {
     let started = Instant::now();
-    let cases = args.tier.pick(60_000u64, 3_000_000);
+    let cases = args.tier.pick(800_000u64, 20_000_000);
     let seed = args.seed;
     if let Some(path) = &args.replay {
         let doc: serde_json::Value =
@@ -388,8 +388,8 @@ pub fn run(args: &Args) -> i32 {
         ],
         exhaustive: None,
         floors: vec![
-            ("replies_delivered".into(), args.tier.pick(50_000, 2_000_000)),
-            ("ok_results_value_checked".into(), args.tier.pick(3_000, 100_000)),
+            ("replies_delivered".into(), args.tier.pick(700_000, 15_000_000)),
+            ("ok_results_value_checked".into(), args.tier.pick(50_000, 1_000_000)),
         ],
         min_classes: 100,
     };
